@@ -156,6 +156,8 @@ func genStream(g *rand.Rand, c *CallSpec, b Bias, classU bool) {
 	c.MsgLen = 10
 	if g.IntN(5) == 0 {
 		c.MsgLen = drawSize(g)
+	} else if g.IntN(10) == 0 {
+		c.MsgLen = -1 // empty messages: zero bytes on the wire
 	}
 	switch c.Kind {
 	case KSStream:
